@@ -342,6 +342,7 @@ func init() {
 			switch c.Idx {
 			case 0:
 				c13Adjacency(c)
+				round8Hand(c, "C13")
 			case 1:
 				c13Literals(c)
 			default:
